@@ -427,3 +427,26 @@ def run(ctx):
                 ctx.ob('ABS-OFFSET', '%s:%s@%d' % (f.name, lv, a['l']), not bad, f.loc(a), '%s = %s' % (lv, f.s(r)[:60]) + ('' if not bad else
                        ': the cache index is used as a file offset - wrong as soon as a chunk in front of the data was too long to cache'), None)
     ctx.require(n_ao >= 20, 'only %d geometry assignments found in the readers' % n_ao)
+
+    ctx.rule('UNION-INIT', 'a local union that is filled through a string member (snprintf / strcpy / memcpy into u.str) and read through a scalar member (u.marker) is initialised as a whole first '
+             '(initializer, memset (&u ...), or an assignment to the scalar member dominating the fill): for a short chunk id the untouched bytes of the marker are stack residue that reaches the file', floor=3)
+    from engine.unioninit import union_init
+    n_ui = union_init(ctx, prog)
+    ctx.require(n_ui >= 3, 'only %d string-filled unions found' % n_ui)
+
+    ctx.rule('ID-WIDTH', 'chunk.c: every snprintf that builds the four-byte chunk marker from a caller-supplied id (psf_save_write_chunk on the write side, psf_get_chunk_iterator / psf_find_read_chunk_str '
+             'on the search side) uses a field width of at least 4 (`%-4s`, `%-4.4s`): ids of one to three characters are padded with spaces on both sides alike. A marker with NUL bytes makes the '
+             'WAV / AIFF / RF64 parsers stop before the data chunk (the file cannot be opened again), and a search must build the marker the writer built', floor=3)
+    import re as _re13
+    n_iw = 0
+    for fn_ in ('psf_save_write_chunk', 'psf_get_chunk_iterator', 'psf_find_read_chunk_str'):
+        g = prog.fn(fn_, 'chunk.c')
+        for c in g.calls('snprintf'):
+            if not g.s(g.unwrap(g.args(c)[0])).startswith('u.'):
+                continue
+            fm = g.unwrap(g.args(c)[2]).get('s') or ''
+            m_ = _re13.match(r'^%-?(\d+)(\.\d+)?s$', fm)
+            n_iw += 1
+            ok = bool(m_) and int(m_.group(1)) >= 4
+            ctx.ob('ID-WIDTH', fn_, ok, g.loc(c), 'marker built with "%s"%s' % (fm, '' if ok else ': ids shorter than 4 characters leave NUL bytes in the marker'), None)
+    ctx.require(n_iw >= 3, 'only %d marker constructions found' % n_iw)
